@@ -6,7 +6,12 @@ from .. import gen
 from ..gen import Opt, schema_lines, LIST, MULTI, TITLE, NO_TITLE_DUPES, NOCASE, dbits
 
 THEOREMS = ["C09_setn_refines", "C09_setn_pristine", "C09_scalar_index_refused", "C09_wrong_type_refused", "C09_unknown_name_refused", "C09_append_keeps_defaults", "C09_setlist_replaces", "C09_remove_keeps_order", "C09_remove_missing_refused", "C09_remove_title_missing_refused", "C09_addtsec_existing_refused", "addlistInternal_appends", "lens_frame", "C09_other_options_untouched", "C09_api_frame"]
-PARTIAL = "Proved per operation (refinement to list operations on the option's value sequence: set-at-index, append, replace-all, erase-at-index, refuse). Not proved as one theorem: the lifting of these per-option facts through path resolution and the context tree for arbitrary operation *sequences* (the tie enumerates all sequences to depth 2/3 over 45 calls from two start states plus random sequences to length 40)."
+PARTIAL = ("Proved per operation (refinement to list operations on the option's value sequence: set-at-index, append, replace-all, erase-at-index, "
+           "refuse) and the frame property at any depth: an update through one option reference leaves the option at every disjoint reference "
+           "exactly as it was (lens_frame), so every by-path setter - successful or refused - touches the addressed option only (C09_api_frame): the "
+           "store is a map from references to value sequences and each call is a point update. Sequences are compositions of these; that a path "
+           "names the reference the caller means is C11_resolve. The tie enumerates all sequences to depth 2/3 over 48 calls from two start states "
+           "plus random sequences to length 40.")
 VARIANT = "asan"
 RULE = ("operation sequences over a finite alphabet of API calls and arguments (scalar/indexed setters, cfg_setlist/addlist, "
         "cfg_setmulti, cfg_setopt, cfg_addtsec, cfg_rmnsec/rmtsec/rmsec, wrong-type / bad-index / unknown-name calls), exhaustive "
